@@ -141,7 +141,8 @@ func (p *Prog) collectFuncs() {
 	seen := map[*ssa.Function]bool{}
 	var add func(f *ssa.Function)
 	add = func(f *ssa.Function) {
-		if f == nil || seen[f] || f.Blocks == nil {
+		if f == nil || seen[f] || f.Blocks == nil || f.Synthetic != "" {
+			// synthetic functions (package initialisers, wrappers) are not source
 			return
 		}
 		seen[f] = true
